@@ -60,6 +60,17 @@ pub struct RawBlock {
 	pub diff: u16,
 	pub neg: Neg,
 	pub neg_pick: u16,
+	/// header-first delivery: 0 = the block arrives as a whole; 1 = its header is delivered first through
+	/// process_block_header; 2 = through sync_block_headers (a one-header chunk). The header of a block whose
+	/// body is refused stays known: the header chain then runs ahead of, or on another fork than, the body chain.
+	#[serde(default)]
+	pub hdr: u8,
+	/// encoding of the block's inputs as the node receives it: 0 = as assembled (commitments only, protocol 3);
+	/// 1 = the protocol-2 form, (features, commitment) pairs with the true features; 2 = that form with the
+	/// features of one input (neg_pick) misdeclared — such an input names an output that does not exist, the
+	/// block must be refused; 3 = every input declared Plain (a lie exactly for the coinbase inputs). Input features are not covered by any header field, so no re-mining is needed.
+	#[serde(default)]
+	pub inp: u8,
 }
 
 pub fn raw_out() -> impl Strategy<Value = RawOut> {
@@ -104,8 +115,10 @@ pub fn raw_block(neg_weight: u32) -> impl Strategy<Value = RawBlock> {
 			]
 		],
 		any::<u16>(),
+		prop_oneof![14 => Just(0u8), 4 => Just(1u8), 2 => Just(2u8)],
+		prop_oneof![100 => Just(0u8), 40 => Just(1u8), neg_weight.min(25) => Just(2u8)],
 	)
-		.prop_map(|(parent, cb_key, txs, dt, diff, neg, neg_pick)| RawBlock {
+		.prop_map(|(parent, cb_key, txs, dt, diff, neg, neg_pick, hdr, inp)| RawBlock {
 			parent,
 			cb_key,
 			txs,
@@ -113,6 +126,8 @@ pub fn raw_block(neg_weight: u32) -> impl Strategy<Value = RawBlock> {
 			diff,
 			neg,
 			neg_pick,
+			hdr,
+			inp,
 		})
 }
 
@@ -611,6 +626,34 @@ impl World {
 				return Err(e);
 			}
 		};
+		if raw.inp != 0 {
+			let commits: Vec<Commitment> = match b.inputs() {
+				grin_core::core::Inputs::FeaturesAndCommit(v) => v.iter().map(|i| i.commitment()).collect(),
+				grin_core::core::Inputs::CommitOnly(v) => v.iter().map(|c| c.commitment()).collect(),
+			};
+			let lie = if raw.inp == 2 && !commits.is_empty() { Some((raw.neg_pick as usize * commits.len()) >> 16) } else { None };
+			let mut v: Vec<grin_core::core::Input> = commits
+				.iter()
+				.enumerate()
+				.map(|(i, c)| {
+					let truth = self.refs.get(&c.0.to_vec()).map(|r| r.features()).unwrap_or(grin_core::core::OutputFeatures::Plain);
+					let f = if raw.inp == 3 {
+						grin_core::core::OutputFeatures::Plain
+					} else if lie == Some(i) {
+						if truth.is_coinbase() {
+							grin_core::core::OutputFeatures::Plain
+						} else {
+							grin_core::core::OutputFeatures::Coinbase
+						}
+					} else {
+						truth
+					};
+					grin_core::core::Input::new(f, *c)
+				})
+				.collect();
+			v.sort_unstable();
+			b.body.inputs = grin_core::core::Inputs::FeaturesAndCommit(v);
+		}
 		let verdict = pnode.model.apply(&b);
 		match set_roots(chain, &mut b) {
 			Ok(()) => {}
